@@ -238,6 +238,19 @@ def grid_case(case, res):
                         res.hits["infinite reference frequency"] += 1
                     if refkind in ("above", "below"):
                         res.hits["reference outside the band"] += 1
+                    # ---- the reference frequency held in single precision (a value exactly representable there)
+                    if isinstance(ref, u.Quantity) and np.isfinite(ref.value) and float(np.float32(ref.value)) == float(ref.value) and N <= 8:
+                        ref32 = u.Quantity(np.float32(ref.value), ref.unit, dtype=np.float32)
+                        res.transitions += 1
+                        try:
+                            o32 = pb.coherent_dedispersion(z, dm, ref_freq=ref32)
+                            if len(o32) != len(out) or (y.size and float(np.max(np.abs(np.asarray(o32.data) - y))) > 4 * EPS32):
+                                res.violation("dedisperse|reference frequency as float32", f"ref_freq = {ref!r} held as float32 gives a "
+                                              f"different result [{sub2}]", case, sub2)
+                            else:
+                                res.hits["reference frequency held in single precision"] += 1
+                        except Exception as e:
+                            res.violation("dedisperse|reference frequency as float32 raised", f"{type(e).__name__}: {e} [{sub2}]", case, sub2)
                     # ---- supplied chirp == internal chirp
                     chs = dm.chirp_from_signal(z, ref_freq=ref)
                     o2 = pb.coherent_dedispersion(z, dm, chirp=chs, **kw)
@@ -287,6 +300,34 @@ def grid_case(case, res):
             if not np.array_equal(c_, np.asarray(d_.chirp_from_signal(zn))):
                 res.violation("chirp|dask siblings", f"chirp #{k} of three built lazily in one graph differs from the eager chirp", case, {"k": k})
         res.hits["dask-backed siblings"] += 1
+        # two signals whose centre frequencies differ by a few Hz, dedispersed lazily and computed together; the channels of one
+        # signal under a coarse NumPy print precision: every chirp must be its own (lazy chirps are keyed by their arguments)
+        xs_ = rng.uniform(-1, 1, (N, 2)) + 1j * rng.uniform(-1, 1, (N, 2))
+        pair = [factory.make("BasebandSignal", da.from_array(xs_, chunks=(N, 1)), sample_rate=250 * u.kHz, fc=fc_, align="center",
+                             start_name="iso") for fc_ in (1400000000 * u.Hz, 1400000004 * u.Hz)]
+        pair_np = [type(p_).like(p_, xs_) for p_ in pair]
+        dmx_ = pb.DM(10.0)
+        refq = 2.8e9 * u.Hz
+        want_ = [np.asarray(pb.coherent_dedispersion(p_, dmx_, ref_freq=refq).data) for p_ in pair_np]
+        lazy_ = [pb.coherent_dedispersion(p_, dmx_, ref_freq=refq) for p_ in pair]
+        got_ = dask.compute(*[o.data for o in lazy_], scheduler="synchronous")
+        res.transitions += 4
+        for k, (g, w) in enumerate(zip(got_, want_)):
+            if g.shape != w.shape or (w.size and float(np.max(np.abs(g - w))) > 64 * EPS32):
+                res.violation("dedisperse|dask|signals a few Hz apart computed together", f"signal #{k} (centre {pair[k].center_freq}) "
+                              f"differs from its NumPy result by {float(np.max(np.abs(g - w))) if g.shape == w.shape else 'shape'}", case, {"k": k})
+        wide = factory.make("BasebandSignal", da.from_array(rng.uniform(-1, 1, (N, 8)) + 0j, chunks=(N, 2)), sample_rate=250 * u.kHz,
+                            fc=1.4 * u.GHz, align="center", start_name="iso")
+        wide_np = type(wide).like(wide, np.asarray(wide.data))
+        ref_ch = np.asarray(dmx_.chirp_from_signal(wide_np))
+        with np.printoptions(precision=3):
+            lazy_ch = dmx_.chirp_from_signal(wide)
+            got_ch = np.asarray(lazy_ch.compute(scheduler="synchronous"))
+        res.transitions += 2
+        if got_ch.shape != ref_ch.shape or float(np.max(np.abs(got_ch - ref_ch))) > 8 * EPS32:
+            res.violation("chirp|dask|coarse print precision", f"lazy chirps of 8 channels built under np.printoptions(precision=3) "
+                          f"differ from the eager chirps by {float(np.max(np.abs(got_ch - ref_ch))):.3g}", case, None)
+        res.hits["lazy chirps of nearly equal arguments"] += 1
         # ---- histories: a chirp handed to the caller is the caller's to modify; later dedispersions must not change
         d0 = dms[0]
         for how in ("chirp_function", "chirp_from_signal"):
@@ -424,7 +465,7 @@ def main(argv=None):
         PID, gen_cases=gen_cases, check_case=check_case, describe=describe,
         required_hits=["buffer overwritten between calls", "chirp checked", "|phi| > 1000 cycles (reduction mod 1 matters)",
                        "block shorter than the sweep (empty result)", "cropped on both ends (reference inside band)",
-                       "reference outside the band", "infinite reference frequency", "DM stored in another unit", "dask-backed siblings", "caller modified an earlier chirp", "band-edge delay a few 1e-7 above a whole sample", "sample_rate assigned between dedispersions", "wave packet moved by its delay", "DM then -DM", "supplied chirp as nested list / read-only array"],
+                       "reference outside the band", "infinite reference frequency", "DM stored in another unit", "dask-backed siblings", "caller modified an earlier chirp", "band-edge delay a few 1e-7 above a whole sample", "sample_rate assigned between dedispersions", "wave packet moved by its delay", "DM then -DM", "supplied chirp as nested list / read-only array", "lazy chirps of nearly equal arguments", "reference frequency held in single precision"],
         assumptions=["chirp is single precision by design; budget 8 eps32 + 2 pi |phi| 32 eps64 (1 + f_ref/|f - f_ref|) for the "
                      "float64 cancellation in 1/f_ref - 1/f", "Nyquist-bin frequency convention (+-sr/2) left open for even N",
                      "band-edge delays within 1e-9 of an integer leave the crop open"],
